@@ -215,6 +215,7 @@ func (l *Loaded) runInstance(in *Instance, solverKinds []string, queryTimeoutMs 
 	if timeout == 0 {
 		timeout = 20 * time.Minute
 	}
+	sol.deadline = t0.Add(timeout)
 	pending := []pendingPath{{}}
 	for len(pending) > 0 {
 		if res.Paths >= maxPaths {
@@ -298,11 +299,23 @@ func (vm *VM) runPath(fn *ssa.Function) (end pathEnd) {
 			switch e := r.(type) {
 			case pathEnd:
 				end = e
+				if e.kind == "unsupported" || e.kind == "oob" || e.kind == "rowrite" {
+					end.msg += " [at " + vm.where() + "]"
+					if os.Getenv("SYMGO_TRACE") != "" {
+						for i := len(vm.stack) - 1; i >= 0 && i > len(vm.stack)-12; i-- {
+							end.msg += "\n    called from " + vm.stack[i].String()
+						}
+					}
+				}
 			case goPanic:
 				end = pathEnd{"panic", e.msg}
 			default:
-				vm.drainQuiet()
-				panic(r)
+				if os.Getenv("SYMGO_CRASH") != "" {
+					vm.drainQuiet()
+					panic(r)
+				}
+				// an engine-level failure (unsupported value shape): the path is inconclusive, never a verdict
+				end = pathEnd{"unsupported", fmt.Sprintf("engine: %v [at %s]", r, vm.where())}
 			}
 		}
 		vm.drainQuiet()
